@@ -340,6 +340,42 @@ struct hint_backoff {
 
 // ---------------------------------------------------------------- skip list
 
+// SkipList::find_position() & co. restart from the head ("goto retry"), without back-off or any other call
+// into client code, as long as they meet a logically deleted node that they may not unlink themselves: a
+// node is unlinked strictly from its top level down (is_upper_level()), and the top levels may not be linked
+// yet because the inserting thread is still building the tower.  The searching thread (possibly the eraser
+// itself) thus waits for the inserter.  The only thing a client can hook into that loop is the memory-order
+// argument of the atomic loads: the traits' memory_model below has members that convert to
+// std::memory_order and count the conversions; beyond c_order_limit conversions inside one operation each
+// further one is a spin hint (switched off by `--hints 0`, like the other hints).
+static thread_local unsigned tls_order_count = 0;
+static constexpr unsigned c_order_limit = 400;
+struct hint_order {
+    std::memory_order mo;
+    operator std::memory_order() const
+    {
+        if ( ++tls_order_count > c_order_limit ) {
+            tls_order_count = c_order_limit - 50;       // then every 50 atomic operations
+            retry_tick();
+        }
+        return mo;
+    }
+};
+struct hint_memory_model {
+    static hint_order const memory_order_relaxed;
+    static hint_order const memory_order_consume;
+    static hint_order const memory_order_acquire;
+    static hint_order const memory_order_release;
+    static hint_order const memory_order_acq_rel;
+    static hint_order const memory_order_seq_cst;
+};
+hint_order const hint_memory_model::memory_order_relaxed = { std::memory_order_relaxed };
+hint_order const hint_memory_model::memory_order_consume = { std::memory_order_consume };
+hint_order const hint_memory_model::memory_order_acquire = { std::memory_order_acquire };
+hint_order const hint_memory_model::memory_order_release = { std::memory_order_release };
+hint_order const hint_memory_model::memory_order_acq_rel = { std::memory_order_acq_rel };
+hint_order const hint_memory_model::memory_order_seq_cst = { std::memory_order_seq_cst };
+
 // Deterministic random-level generator (the library's generators are seeded from the OS timer, which
 // would make a case irreproducible).  Geometric distribution with p = 1/2, heights 1 .. 6.
 static unsigned g_level_seed = 1;
@@ -360,11 +396,13 @@ template <bool Cmp> struct skip_traits;
 template <> struct skip_traits<false> : cc::skip_list::traits {
     typedef key_less less;
     typedef det_level_gen random_level_generator;
+    typedef hint_memory_model memory_model;
 };
 template <> struct skip_traits<true> : cc::skip_list::traits {
     typedef key_cmp compare;
     typedef det_level_gen random_level_generator;
     typedef cds::atomicity::item_counter item_counter;
+    typedef hint_memory_model memory_model;
 };
 
 // ---------------------------------------------------------------- Ellen's binary tree
@@ -634,7 +672,7 @@ struct Fixture {
     std::vector<std::vector<Op>> program( Rng& r, int nthreads, int nops ) { return map_program( r, nthreads, nops, *m, gen ); }
     void thread_begin( int ) { set_quiet( true ); cds::threading::Manager::attachThread(); set_quiet( false ); }
     void thread_end( int ) { set_quiet( true ); cds::threading::Manager::detachThread(); set_quiet( false ); }
-    std::vector<long> exec( int, Op const& op ) { return map_exec( *m, op ); }
+    std::vector<long> exec( int, Op const& op ) { tls_order_count = 0; return map_exec( *m, op ); }
     void finish( std::ostream& ) {}
 };
 
